@@ -72,7 +72,7 @@ impl Serializer for ValueSerializer {
     }
 
     fn serialize_u128(self, value: u128) -> Result<Value> {
-        self.serialize_i128(value as i128)
+        self.serialize_i128(i128::try_from(value)?)
     }
 
     fn serialize_f32(self, value: f32) -> Result<Value> {
